@@ -107,6 +107,13 @@ class Opaque:
         self.text = text
 
 
+class Rec:
+    """A dataclass instance built in the analysed code: its fields are known abstract values."""
+
+    def __init__(self, ci, fields: dict):
+        self.ci, self.fields = ci, fields
+
+
 class _Ret(Exception):
     pass
 
@@ -144,6 +151,14 @@ class LenEv:
             if isinstance(v, int) and not isinstance(v, bool):
                 return L(v)
             base = self.ev(e.value, env)
+            if isinstance(base, Rec):
+                if e.attr in base.fields:
+                    return base.fields[e.attr]
+                if base.ci.is_property(e.attr):
+                    body = [b for b in base.ci.methods[e.attr].body if not (isinstance(b, ast.Expr) and isinstance(b.value, ast.Constant))]
+                    if len(body) == 1 and isinstance(body[0], ast.Return) and body[0].value is not None:
+                        return LenEv(self.repo, base.ci.module, base.ci).ev(body[0].value, {"self": base})
+                raise LenUnsupported(f"attribute {e.attr} of a {base.ci.name} record")
             if isinstance(base, (Opaque, Coll, Str)):
                 return Opaque(f"{base.text}.{e.attr}")
             raise LenUnsupported(f"attribute {unparse(e)}")
@@ -189,6 +204,17 @@ class LenEv:
 
     def call(self, e: ast.Call, env: dict):
         d = dotted(e.func) or ""
+        ci = self.repo.resolve_class(self.module, e.func) if d and d not in ("len", "bytes", "bytearray", "int") else None
+        if ci is not None and ci.is_dataclass and not ci.is_enum():
+            names = [n for n, _, _ in ci.fields]
+            fields = {}
+            for i, a in enumerate(e.args):
+                if i < len(names):
+                    fields[names[i]] = self.ev(a, env)
+            for k in e.keywords:
+                if k.arg:
+                    fields[k.arg] = self.ev(k.value, env)
+            return Rec(ci, fields)
         if d == "len" and len(e.args) == 1:
             v = self.ev(e.args[0], env)
             if isinstance(v, Bytes):
